@@ -284,7 +284,7 @@ fn sizes(rng: &mut Rng, rounds: u64) -> Result<u64, String> {
         } else {
             ("", text.to_string())
         };
-        let body = "pub fn main(x: [u8; N]) -> u16 {\n    let mut s = 0u16;\n    for e in x { s = s + (e as u16) }\n    let a = [3u16; N];\n    for e in a { s = s + e }\n    s + (N as u16)\n}";
+        let body = "pub fn main(x: [u8; N]) -> u16 {\n    let mut s = 0u16;\n    for e in x { s = s + (e as u16) }\n    let a = [3u16; N];\n    for e in a { s = s + e }\n    let b: [u8; N] = [7; N];\n    s = s + (b[0] as u16);\n    s + (N as u16)\n}";
         let src = format!("{defs}const N: usize = {text};\n{body}");
         let lit_src = body.replace("; N]", &format!("; {size}]")).replace("(N as u16)", &format!("({size}usize as u16)"));
         let with_consts = catch_unwind(AssertUnwindSafe(|| garble_lang::compile_with_constants(&src, cs.clone())));
@@ -303,7 +303,7 @@ fn sizes(rng: &mut Rng, rounds: u64) -> Result<u64, String> {
         }
         for trial in 0..4u64 {
             let inputs: Vec<Vec<bool>> = (0..size).map(|k| { let v = ((k * 37 + trial * 11 + a) % 200) as u8; (0..8).map(|i| (v >> (7 - i)) & 1 == 1).collect() }).collect();
-            let expected: u64 = (0..size).map(|k| (k * 37 + trial * 11 + a) % 200).sum::<u64>() + 3 * size + size;
+            let expected: u64 = (0..size).map(|k| (k * 37 + trial * 11 + a) % 200).sum::<u64>() + 3 * size + 7 + size;
             let out = prg.circuit.eval(&inputs);
             let out2 = lit_prg.circuit.eval(&inputs);
             if out[0] != out2[0] || out[161..] != out2[161..] {
